@@ -1,0 +1,14 @@
+//go:build verif
+
+package lalr
+
+// VerifHook, when set, observes the tables at fixed points of Compile
+// ("conflicts": after reportConflicts, "minimized": after minimize,
+// "optimized": after Optimize). Only compiled in with the "verif" build tag.
+var VerifHook func(stage string, g *Grammar, opts Options, t *Tables, err error)
+
+func verifPoint(stage string, g *Grammar, opts Options, t *Tables, err error) {
+	if VerifHook != nil {
+		VerifHook(stage, g, opts, t, err)
+	}
+}
